@@ -218,9 +218,32 @@ func runVerification(o RunOpts) (*RunResult, error) {
 		if strings.HasPrefix(fc.RelName, "interface ") {
 			continue
 		}
+		if fc.Inline {
+			// "inline": no contract of its own; the body is executed (loops unrolled, with unwinding
+			// obligations) at every call site from a function under contract
+			continue
+		}
 		fn := findFunc(ld.Prog, name)
 		if fn == nil {
 			rr.Results = append(rr.Results, &FuncResult{Fn: name, Contract: fc, Errs: []string{"contract does not bind: function not found in " + fc.Pkg}})
+			continue
+		}
+		if fn.TypeParams().Len() > 0 && len(fn.TypeArgs()) == 0 {
+			// a generic function: its contract is checked on every instance the loaded packages
+			// create (go/ssa builds one body per instantiation)
+			var insts []*ssa.Function
+			for f := range ssautil.AllFunctions(ld.Prog) {
+				if f.Origin() == fn && len(f.Blocks) > 0 {
+					insts = append(insts, f)
+				}
+			}
+			sort.Slice(insts, func(i, j int) bool { return insts[i].String() < insts[j].String() })
+			if len(insts) == 0 {
+				rr.Results = append(rr.Results, &FuncResult{Fn: name, Contract: fc, Errs: []string{"contract does not bind: generic function without instances in the loaded packages"}})
+			}
+			for _, f := range insts {
+				rr.Results = append(rr.Results, VerifyFunction(ld.Prog, db, f, fc, o.MaxPaths))
+			}
 			continue
 		}
 		rr.Results = append(rr.Results, VerifyFunction(ld.Prog, db, fn, fc, o.MaxPaths))
